@@ -278,6 +278,18 @@ def run(ctx, chk):
             chk.ok("C07.R7", "CMDDriver::run", msg)
         else:
             chk.violation("C07.R7", "CMDDriver::run", "repeat-arm", msg, drv["span"])
+        from driver_rules import undispatched_interpreter_calls
+        und = undispatched_interpreter_calls(ctx, drv)
+        if und is None:
+            chk.undecided_("C07.R7", "CMDDriver::run:dispatch", "interpreter call / State dispatch not recognised")
+        elif und:
+            file = drv["span"].rsplit(":", 2)[0]
+            chk.violation("C07.R7", "CMDDriver::run", "iteration-outcome-dropped",
+                          f"the driver executes instructions at {len(und)} further call site(s) of the interpreter from which the dispatch over the State variants is not reached: "
+                          "the outcome of that execution (NEXT after the last iteration of a REP, a ZF-terminated REPE/REPNE, ..) is discarded and the main loop issues the line once more",
+                          f"{file}:{und[0][1]}")
+        else:
+            chk.ok("C07.R7", "CMDDriver::run:dispatch", "every call of the interpreter reaches the dispatch over the State variants")
 
 
 def rep_rule(ctx, chk):
